@@ -281,12 +281,39 @@ def build_fake(parsed):
         else:
           object.__setattr__(self, f, v)
 
+    def MergeFrom(self, other):
+      # proto3 merge: singular scalar fields are overwritten when set (i.e.
+      # non-default) in `other`, repeated fields are concatenated, message
+      # fields are merged recursively
+      for f in self._fields:
+        v = getattr(other, f)
+        cur = getattr(self, f)
+        if isinstance(v, FakeRepeated):
+          for x in v:
+            if hasattr(x, 'CopyFrom') and hasattr(x, '_fields'):
+              y = type(x)()
+              y.CopyFrom(x)
+              cur.append(y)
+            else:
+              cur.append(x)
+        elif hasattr(v, '_fields'):
+          cur.MergeFrom(v)
+        elif isinstance(v, dict):
+          cur.update(v)
+        elif isinstance(v, (bytes, str, list)):
+          if len(v):
+            object.__setattr__(self, f, v)
+        else:
+          if v:  # forks on symbolic values: non-default
+            object.__setattr__(self, f, v)
+
     def __repr__(self):
       return '%s(%s)' % (name, ', '.join(
           '%s=%r' % (f, getattr(self, f)) for f in self._fields))
 
     cls = type(name, (object,), dict(
         __init__=__init__, __setattr__=__setattr__, CopyFrom=CopyFrom,
+        MergeFrom=MergeFrom,
         __repr__=__repr__, _fields=[f[2] for f in fields], _fake=True))
     return cls
 
